@@ -4,7 +4,7 @@ from ..core import f2b, b2f
 from .. import samples as S, sample_checks as SC, kin, exact as X
 
 MODULE = "Momtrop.Props.C08"
-THEOREMS = []
+THEOREMS = ["Momtrop.C08.lMatrix_symm", "Momtrop.C08.lMatrix_entry", "Momtrop.C08.lMatrix_symmOn", "Momtrop.C08.u_eq_det", "Momtrop.C08.lMat_basis_change", "Momtrop.C08.lMat_orientation", "Momtrop.C08.det_basis_change", "Momtrop.C08.unimodular_sq"]
 RULE = ("accepted connected catalogue/random graphs with 1..3 (quick) / 1..5 (thorough) loops, each with the fundamental cycle basis of a "
         "random spanning tree AND a random unimodular change of basis (entries of magnitude >=2 included) with edge re-orientations "
         "and loop-momentum offsets, points uniform / corner / coordinate one ulp below 1; non-trivial: L>=2 and non-fundamental "
